@@ -61,6 +61,7 @@ Definition code_of_res (x : res) : nat :=
   match x with
   | RNone => 0 | RPanic => 1 | RClosed => 2 | ROpen _ => 3 | RCanceled => 4 | RExecuted => 5
   | RQueued => 6 | RBool true => 7 | RBool false => 8 | RZero => 9 | RNonzero => 10 | RVoid => 11
+  | REither => 12
   end.
 
 Definition res_of_code (n : nat) : res :=
@@ -74,6 +75,15 @@ Fixpoint nat_list_eqb (a b : list nat) : bool :=
   match a, b with
   | [], [] => true
   | x :: r, y :: s => Nat.eqb x y && nat_list_eqb r s
+  | _, _ => false
+  end.
+
+(* model result codes against observed ones: REither (12) stands for true or false *)
+Fixpoint res_list_match (m o : list nat) : bool :=
+  match m, o with
+  | [], [] => true
+  | x :: r, y :: s =>
+    (Nat.eqb x y || (Nat.eqb x 12 && (Nat.eqb y 7 || Nat.eqb y 8))) && res_list_match r s
   | _, _ => false
   end.
 
@@ -158,12 +168,12 @@ Definition mismatch (k : c13case) : list N :=
       then [] else [2%N])
   ++ (if gated then
         (if m_done m then [] else [9%N])
-        ++ (if nat_list_eqb (map (fun t => code_of_res (th_res t)) (m_main m)) (o_th_res k) then [] else [3%N])
+        ++ (if res_list_match (map (fun t => code_of_res (th_res t)) (m_main m)) (o_th_res k) then [] else [3%N])
         ++ (if nat_list_eqb (map (fun t => closed_code c (th_res t)) (m_main m)) (o_th_closed k) then [] else [4%N])
       else [])
   ++ (if nat_list_eqb (hcounts (dc (sh c))) (o_hcounts k) then [] else [5%N])
   ++ (if m_disposed m && o_disposed k then
-        (if nat_list_eqb (map (fun t => code_of_res (th_res t)) (m_post m)) (o_post_res k) then [] else [6%N])
+        (if res_list_match (map (fun t => code_of_res (th_res t)) (m_post m)) (o_post_res k) then [] else [6%N])
         ++ (if nat_list_eqb (map (fun t => closed_code c (th_res t)) (m_post m)) (o_post_closed k) then [] else [7%N])
       else []).
 
